@@ -109,6 +109,9 @@ POLYHEDRA = {
     'hexa-pyramid': ((0, 0, 0), (1, 0, 0), (2, 1, 0), (2, 2, 0), (1, 2, 0), (0, 1, 0), (1, 1, 1)),
     'cut-cube': ((0, 0, 0), (2, 0, 0), (0, 2, 0), (0, 0, 2), (2, 2, 0), (2, 0, 2), (0, 2, 2),
                  (2, 2, 1), (2, 1, 2), (1, 2, 2)),
+    'spire': ((0, 0, 0), (1, 0, 0), (2, 1, 0), (2, 2, 0), (1, 2, 0), (0, 1, 0), (1, 1, 8)),
+    'skew-tetra': ((0, 0, 0), (2, 0, 0), (0, 2, 0), (6, 6, 2)),
+    'skew-prism': ((0, 0, 0), (2, 0, 0), (0, 2, 0), (3, 3, 1), (5, 3, 1), (3, 5, 1)),
     'hull7': ((0, 0, 0), (3, 0, 0), (0, 2, 0), (3, 2, 0), (1, 0, 2), (0, 2, 1), (2, 1, 2)),
     'hull8': ((0, 0, 0), (2, 0, 0), (3, 2, 0), (0, 2, 0), (0, 0, 1), (2, 0, 2), (2, 2, 2), (0, 1, 2)),
 }
@@ -127,6 +130,7 @@ def body(name):
 
 
 QUICK_BODIES = ['triangle', 'hexagon', 'tetrahedron', 'cut-cube']
+SKEW_BODIES = ['skew-tetra', 'skew-prism']
 
 
 def validate_catalogue():
